@@ -143,13 +143,17 @@ def readGridMarkers (g : List V2.Marker) : List GMarker := g.map fun m => ⟨tru
 /-- `waveform_quantisation_number`: `(static_cast<int64_t>(rate) / 210) * 2` -/
 def quantisationNumber (t : Int) : Int := Int.tdiv t 210 * 2
 
-/-- `w[w.size() * (2 * i + 1) / 2048]` for `i < size` (checked indexing under
-`_GLIBCXX_ASSERTIONS`). -/
-def resample (w : List WEntry) (size : Nat) : Res (List WEntry) :=
-  (List.range size).mapM fun i =>
+/-- `w[w.size() * (2 * i + 1) / 2048]` for each `i` of the list (checked
+indexing under `_GLIBCXX_ASSERTIONS`). -/
+def resampleAt (w : List WEntry) : List Nat → Res (List WEntry)
+  | [] => .ok []
+  | i :: r =>
     match w[w.length * (2 * i + 1) / 2048]? with
-    | some e => Res.ok e
-    | none => Res.ub .oob_index
+    | none => .ub .oob_index
+    | some e => (resampleAt w r).bind fun es => .ok (e :: es)
+
+/-- the loop `for (i = 0; i < extents.size; ++i)` -/
+def resample (w : List WEntry) (size : Nat) : Res (List WEntry) := resampleAt w (List.range size)
 
 def maxOf (f : WEntry → UInt8) (l : List WEntry) : UInt8 := l.foldl (fun a e => if a < f e then f e else a) 0
 
